@@ -8,7 +8,7 @@
    correspondence of this model with the implementation (tools/props/c02.py). *)
 From Coq Require Import ZArith List Bool.
 From Coq Require Import Permutation.
-Require Import PyLib SuiteTypes Crypto KeySchedule QuicKeys QuicPn QuicDissector QuicFrames QuicTls QuicSession TlsRecords QuicPackets QuicBuildP QuicEpochP QuicCryptoP C17RoundP QuicShortP QuicLongPackets QuicLongP QuicInitialP QuicZeroRttP QuicHelloP QuicKeysInstalledP QuicFrontP.
+Require Import PyLib SuiteTypes Crypto KeySchedule QuicKeys QuicPn QuicDissector QuicFrames QuicTls QuicSession TlsRecords QuicPackets QuicBuildP QuicEpochP QuicCryptoP C17RoundP QuicShortP QuicLongPackets QuicLongP QuicInitialP QuicZeroRttP QuicHelloP QuicKeysInstalledP QuicFrontP QuicSelectP.
 Import ListNotations.
 Open Scope Z_scope.
 
@@ -268,3 +268,18 @@ Theorem C02_quic_epoch_invariant_installed : forall C keylog s cr suite h ci kl 
   QuicEpochP.Inv h kl G (fst (set_tls_decryptors C keylog s cr suite)) 0 0.
 Proof. exact epoch_invariant_installed. Qed.
 Print Assumptions C02_quic_epoch_invariant_installed.
+
+(* Which key a 1-RTT packet is given: for a session in step with the connection's key generations, a packet of generation g' (its
+   direction's current one or the next, as its key-phase bit says) gets the cipher and the key and IV of G g' of its direction; the
+   session moves to that generation, output / packet-number spaces / header-protection keys / TLS state stay.  This discharges the
+   hypothesis on select_decryptor of C02_one_rtt_datagram; with C02_quic_epoch_invariant_installed the chain
+   hellos -> keys -> generation 0 -> key updates -> datagrams is closed. *)
+Theorem C02_one_rtt_key_selected : forall C h kl G, (forall n, key_update C (G n) h kl = Ok (G (S n))) ->
+  forall s gc gs g' (srv : bool) pk ci,
+  QuicEpochP.Inv h kl G s gc gs -> qs_cipher s = Some ci -> qp_type pk = QOneRtt -> qp_isserver pk = srv ->
+  (g' = (if srv then gs else gc) \/ g' = S (if srv then gs else gc)) -> qp_key_phase pk = Z.of_nat g' mod 2 ->
+  exists s', select_decryptor C s pk = (s', Some (ci, if srv then (g_skey (G g'), g_siv (G g')) else (g_ckey (G g'), g_civ (G g')))) /\
+             QuicEpochP.Inv h kl G s' (if srv then gc else g') (if srv then g' else gs) /\
+             qs_output s' = qs_output s /\ qs_pn s' = qs_pn s /\ qs_hp s' = qs_hp s /\ qs_tls s' = qs_tls s /\ qs_cipher s' = Some ci.
+Proof. exact one_rtt_key_selected. Qed.
+Print Assumptions C02_one_rtt_key_selected.
